@@ -278,6 +278,100 @@ def clauseDeleteNames (b : State) (op : Op) (out : Out) (a : State) : Bool :=
        out == (if pre.length == ns.length then .ok else .err .notfound))
   | _ => true
 
+/-- a colliding source entry whose value its target refuses (`Parameter::setValue` semantics:
+an equal value is never refused) -/
+def rejColl (h : Store) (l : List ObjId) (s : ObjId) : Bool :=
+  match find? h l (nameOf h s) with
+  | some t => (h.get t).rejects (h.get s).value && decide ((h.get s).value ≠ (h.get t).value)
+  | none => false
+
+/-- the source entries that are processed: everything before the first refused collision -/
+def mergePrefix (h : Store) (l src : List ObjId) : List ObjId := src.takeWhile (fun s => !rejColl h l s)
+
+/-- the processed entries whose name is new to the list -/
+def mergeNews (h : Store) (l src : List ObjId) : List ObjId :=
+  (mergePrefix h l src).filter (fun s => !hasParameter h l (nameOf h s))
+
+/-- `addParameters`, general form: everything before the first name already present is cloned and
+appended; then ParameterException -/
+def addPrefix (h : Store) (l src : List ObjId) : List ObjId :=
+  src.takeWhile (fun s => !hasParameter h l (nameOf h s))
+
+/-- what `matchParameters` / `setParameters` leave in object `i`: a copy of the processed source
+entry whose name resolves to `i` -/
+def expectedPar (h : Store) (l src : List ObjId) (i : ObjId) : Par :=
+  match src.find? (fun s => find? h l (nameOf h s) == some i) with
+  | some s => h.get s
+  | none => h.get i
+
+/-- the source entries `setParameters` processes: everything before the first unknown name -/
+def knownPrefix (h : Store) (l src : List ObjId) : List ObjId :=
+  src.takeWhile (fun s => hasParameter h l (nameOf h s))
+
+/-- what `setAllParameters` leaves in object `i`: entries of the processed prefix of the list
+become copies of the source entry of their name -/
+def expectedAllPar (h : Store) (pre src : List ObjId) (i : ObjId) : Par :=
+  if i ∈ pre then
+    match find? h src (nameOf h i) with
+    | some j => h.get j
+    | none => h.get i
+  else h.get i
+
+/-- the list of register `k` is `l` followed by fresh, pairwise different objects showing `content` -/
+def freshAppended (b a : State) (k : Nat) (l : List ObjId) (content : List Par) : Bool :=
+  (a.lists k).take l.length == l &&
+  decide (((a.lists k).drop l.length).map a.heap.get = content) &&
+  ((a.lists k).drop l.length).all (fun i => decide (b.heap.next ≤ i)) &&
+  decide ((a.lists k).drop l.length).Nodup
+
+/-- clause `include_share_collision_updates` for the bulk forms: `includeParameters`,
+`shareParameters`, `addParameters` between two lists with unique names -/
+def clauseMerge (b : State) (op : Op) (out : Out) (a : State) : Bool :=
+  match op with
+  | .incl k j =>
+    !(namesUniqueB b k && namesUniqueB b j) ||
+      (out == (if (mergePrefix b.heap (b.lists k) (b.lists j)).length = (b.lists j).length then .ok
+               else .err .constraint) &&
+       freshAppended b a k (b.lists k) ((mergeNews b.heap (b.lists k) (b.lists j)).map b.heap.get) &&
+       decide (∀ i, i < b.heap.next →
+         a.heap.get i = expectedSome b.heap (b.lists k) (mergePrefix b.heap (b.lists k) (b.lists j)) i))
+  | .shareAll k j =>
+    !(namesUniqueB b k && namesUniqueB b j) ||
+      (out == (if (mergePrefix b.heap (b.lists k) (b.lists j)).length = (b.lists j).length then .ok
+               else .err .constraint) &&
+       a.lists k == b.lists k ++ mergeNews b.heap (b.lists k) (b.lists j) &&
+       decide (∀ i, i < b.heap.next →
+         a.heap.get i = expectedSome b.heap (b.lists k) (mergePrefix b.heap (b.lists k) (b.lists j)) i))
+  | .addAll k j =>
+    !(namesUniqueB b k && namesUniqueB b j) ||
+      (out == (if (addPrefix b.heap (b.lists k) (b.lists j)).length = (b.lists j).length then .ok
+               else .err .bpp) &&
+       freshAppended b a k (b.lists k) ((addPrefix b.heap (b.lists k) (b.lists j)).map b.heap.get) &&
+       decide (∀ i, i < b.heap.next → a.heap.get i = b.heap.get i))
+  | _ => true
+
+/-- clause for whole-parameter assignment: `matchParameters`, `setParameters`, `setAllParameters` -/
+def clauseAssign (b : State) (op : Op) (out : Out) (a : State) : Bool :=
+  match op with
+  | .matchParams k j =>
+    !namesUniqueB b j ||
+      (out == .ok &&
+       decide (∀ i, i < b.heap.next → a.heap.get i = expectedPar b.heap (b.lists k) (b.lists j) i))
+  | .setParams k j =>
+    !namesUniqueB b j ||
+      (out == (if (knownPrefix b.heap (b.lists k) (b.lists j)).length = (b.lists j).length then .ok
+               else .err .notfound) &&
+       decide (∀ i, i < b.heap.next →
+         a.heap.get i = expectedPar b.heap (b.lists k) (knownPrefix b.heap (b.lists k) (b.lists j)) i))
+  | .setAllParams k j =>
+    !namesUniqueB b k ||
+      (out == (if ((b.lists k).takeWhile (fun i => hasParameter b.heap (b.lists j) (nameOf b.heap i))).length
+                  = (b.lists k).length then .ok else .err .notfound) &&
+       decide (∀ i, i < b.heap.next → a.heap.get i =
+         expectedAllPar b.heap ((b.lists k).takeWhile (fun i => hasParameter b.heap (b.lists j) (nameOf b.heap i)))
+           (b.lists j) i))
+  | _ => true
+
 /-- all clauses; `none` = every clause holds, `some c` = clause `c` is false -/
 def checkStep (n : Nat) (b : State) (op : Op) (out : Out) (fired : Option (List ObjId)) (a : State) :
     Option String :=
@@ -294,6 +388,8 @@ def checkStep (n : Nat) (b : State) (op : Op) (out : Out) (fired : Option (List 
   else if !clauseLookup b op out then some "lookup_exact"
   else if !clauseUpdate b op out a then some "include_share_collision_updates"
   else if !clauseDeleteNames b op out a then some "delete_names_exact"
+  else if !clauseMerge b op out a then some "include_share_add_all"
+  else if !clauseAssign b op out a then some "whole_parameter_assignment"
   else none
 
 end Bpp.ParamList
